@@ -19,7 +19,7 @@ RULE = ("C01's schemas and reachable states (a valid prefix history), then faili
         "fields/include_field.py during loads/load; whenever such an operation raises, M-same compares values at all "
         "depths, user-defined flags and identities of nested configurations before/after; non-trivial = >= 2 "
         "raising listed operations judged; distinct = distinct (schema, history)")
-REQUIRED = ("section_objects_refused_by_a_list", "failed_loads_with_late_or_chained_includes", "failed_loads_after_the_environment_changed", "foreign_items_rejected_by_a_second_configuration", "readonly_assignments_rejected", "rejected_replacements_through_an_equal_key_of_another_type", "dotted_continuations_into_nested_dicts_rejected", "derived_containers_rejected_by_field_validator", "list_reuse_rejections", "wrong_root_documents_rejected", "incomplete_objects_rejected", "incomplete_maps_rejected", "dotted_into_dict_rejections", "corrupt_include_files", "same_checks", "raised:set", "raised:set-sub", "raised:ctor", "raised:listop", "raised:dictop",
+REQUIRED = ("roots_that_are_sequences_of_pairs_rejected", "section_objects_refused_by_a_list", "failed_loads_with_late_or_chained_includes", "failed_loads_after_the_environment_changed", "foreign_items_rejected_by_a_second_configuration", "readonly_assignments_rejected", "rejected_replacements_through_an_equal_key_of_another_type", "dotted_continuations_into_nested_dicts_rejected", "derived_containers_rejected_by_field_validator", "list_reuse_rejections", "wrong_root_documents_rejected", "incomplete_objects_rejected", "incomplete_maps_rejected", "dotted_into_dict_rejections", "corrupt_include_files", "same_checks", "raised:set", "raised:set-sub", "raised:ctor", "raised:listop", "raised:dictop",
             "raised:loads-unparsable", "raised:loads-include", "failpoint_injections_raised")
 ASSUMPTIONS = ["only the kinds of operation listed in the property are judged (a tree that parses but fails validation "
                "half way, extend / slice / update with a bad element are outside the statement)",
@@ -126,7 +126,7 @@ def generate(rng, ctx):
         ops.insert(rng.randrange(len(ops) + 1), {"op": "loads", "tree": tree, "fmt": rng.choice(history.FORMATS),
                                                  "corrupt": rng.choice(["truncate:%d" % rng.randrange(1, 8), "wrongroot", "badutf8",
                                                                         "empty", "garbage", "seqroot", "seqroot", "multidoc",
-                                                                        "scalarroot"])})
+                                                                        "scalarroot", "pairsroot", "pairsroot"])})
     if rng.random() < (0.6 if thorough else 0.25):
         tree = gen.tree_for(rng, schema, env, valid=True, partial=0.5)
         ops.append({"op": "loads", "tree": tree, "fmt": rng.choice(history.FORMATS), "failpoints": rng.getrandbits(30)})
@@ -292,6 +292,8 @@ def run(case, ctx, res):
             res.count("list_reuse_rejections")
         if op.get("corrupt") in ("seqroot", "multidoc", "scalarroot") and out["raised"] is not None:
             res.count("wrong_root_documents_rejected")
+        if op.get("corrupt") == "pairsroot" and out["raised"] is not None:
+            res.count("roots_that_are_sequences_of_pairs_rejected")
         if op.get("incomplete_object") and out["raised"] is not None:
             res.count("incomplete_objects_rejected")
         if op.get("incomplete_map") and out["raised"] is not None:
